@@ -1395,6 +1395,32 @@ theorem C14_rejected_stores_nothing {σ : Type} (add : σ → Nat → Bytes → 
     grOne add true st w fc (.http status cl cr body) = ⟨st, w, 0, some why.name, [], false⟩ := by
   simp [grOne, h]
 
+/-- The decision function is total over the parser's outputs, the `-1` of the unsatisfied-range form
+    included: a 206 whose Content-Range is `bytes */N` (offset −1, length −1) is refused for every
+    request — a requested offset is never negative — whatever `N` and whatever the body. -/
+theorem C14_unsatisfied_range_refused (cl cr : List Char) (flength offset length l t : Int)
+    (ho : 0 ≤ offset) (hcr : cr ≠ []) (hp : parseContentRange cr = some (-1, l, t)) :
+    grDecide true 206 cl cr flength offset length = .reject .notHonoured := by
+  unfold grDecide
+  have h1 : cr.isEmpty = false := by
+    cases cr with
+    | nil => exact absurd rfl hcr
+    | cons a r => rfl
+  simp only [show (206 : Nat) ≠ 200 by decide, if_false, if_true, h1, hp, Bool.false_eq_true]
+  rw [if_pos (by omega)]
+
+/-- … and more generally whenever the range the server states does not start where asked -/
+theorem C14_other_start_refused (cl cr : List Char) (flength offset length o l t : Int)
+    (hcr : cr ≠ []) (hp : parseContentRange cr = some (o, l, t)) (hne : o ≠ offset) :
+    grDecide true 206 cl cr flength offset length = .reject .notHonoured := by
+  unfold grDecide
+  have h1 : cr.isEmpty = false := by
+    cases cr with
+    | nil => exact absurd rfl hcr
+    | cons a r => rfl
+  simp only [show (206 : Nat) ≠ 200 by decide, if_false, if_true, h1, hp, Bool.false_eq_true]
+  rw [if_pos hne]
+
 /-- The pinned `Get` (`fixed = false`) limits the body only when the *claimed* length exceeds the
     request: a 206 claiming ten bytes is accepted without any limit on the body. -/
 theorem C14_response_validation_unfixed_refuted :
@@ -1460,6 +1486,43 @@ theorem C14_hoffman_writer_bound {σ : Type} (add : σ → Nat → Bytes → σ 
   refine ⟨C14_writer_no_panic add hle offset length hU st _, h.2.1, fun e he => ?_⟩
   obtain ⟨a, b, _⟩ := h.2.2 e he
   exact ⟨a, b⟩
+
+/-! ### several writers at once
+
+Writers are independent state machines: a writer's state is its own `(offset, count, buf)` and the
+store of its piece; nothing is shared between writer instances.  (The harness ties this sharing
+assumption to the Go code: it interleaves the calls of up to three live writers and compares each
+one's observations with a run of the same calls alone — kind `writer:interference`.) -/
+
+section
+variable {σ : Type} (add : σ → Nat → Bytes → σ × AddRes)
+
+/-- calls tagged with the writer they are made on; every writer has its own run state -/
+def runTagged (rs : Nat → Run σ) (ops : List (Nat × Op σ)) : Nat → Run σ :=
+  ops.foldl (fun rs x => fun j => if j = x.1 then Run.step add true (rs j) x.2 else rs j) rs
+
+/-- **Writers are independent.**  For every interleaving of calls on any number of writers (each
+    on its own piece store), the state, the accepted data, the events and the store of writer `i`
+    are those of running its own calls alone, in their order — whatever the other writers were doing
+    in between.  All single-writer theorems therefore hold for each writer of a concurrent set. -/
+theorem C14_writers_independent (ops : List (Nat × Op σ)) : ∀ (rs : Nat → Run σ) (i : Nat),
+    runTagged add rs ops i = run add true (rs i) ((ops.filter (fun x => x.1 = i)).map (·.2)) := by
+  induction ops with
+  | nil => intro rs i; rfl
+  | cons x rest ih =>
+    intro rs i
+    show runTagged add (fun j => if j = x.1 then Run.step add true (rs j) x.2 else rs j) rest i = _
+    rw [ih]
+    by_cases h : x.1 = i
+    · have hd : decide (x.1 = i) = true := by simp [h]
+      simp only [List.filter_cons, hd, if_true, List.map_cons]
+      rw [if_pos h.symm]
+      rfl
+    · have hd : decide (x.1 = i) = false := by simp [h]
+      simp only [List.filter_cons, hd, Bool.false_eq_true, if_false]
+      rw [if_neg (fun e => h e.symm)]
+
+end
 
 /-! ### the whole fetch: tor.webseedGR is a sequence of ReadFrom calls on one writer, then Close -/
 
@@ -1661,6 +1724,202 @@ theorem C14_maybe_range_inside (s : Store) (infl : List Nat) (rate5 o l : Nat)
         rw [hn] at hend
         simp only [CS, ceilDiv] at *; omega
   · simp at h
+
+/-! ### buildUrl: the request target names exactly the torrent's file -/
+
+section Url
+open Storrent.Http
+
+/-- per byte: an escaped byte decodes to itself and contains no '/', an unescaped one is neither
+    '%' nor '/' -/
+def byteOK (n : Nat) : Bool :=
+  let c := UInt8.ofNat n
+  (if shouldEscape c then
+     unhexDigit (upperhex (n / 16)) == some (n / 16) && unhexDigit (upperhex (n % 16)) == some (n % 16)
+       && upperhex (n / 16) != 47 && upperhex (n % 16) != 47
+   else c != 37 && c != 47)
+
+set_option maxRecDepth 100000 in
+theorem allBytesOK : ∀ n, n < 256 → byteOK n = true := by decide
+
+theorem byte_cases (c : UInt8) :
+    (shouldEscape c = true ∧ pctByte c = [37, upperhex (c.toNat / 16), upperhex (c.toNat % 16)] ∧
+      unhexDigit (upperhex (c.toNat / 16)) = some (c.toNat / 16) ∧
+      unhexDigit (upperhex (c.toNat % 16)) = some (c.toNat % 16) ∧
+      upperhex (c.toNat / 16) ≠ 47 ∧ upperhex (c.toNat % 16) ≠ 47) ∨
+    (shouldEscape c = false ∧ pctByte c = [c] ∧ c ≠ 37 ∧ c ≠ 47) := by
+  have h := allBytesOK c.toNat (by have := UInt8.toNat_lt c; omega)
+  unfold byteOK at h
+  rw [UInt8.ofNat_toNat] at h
+  dsimp only at h
+  cases hs : shouldEscape c with
+  | true =>
+    left
+    simp only [hs, if_true, Bool.and_eq_true, beq_iff_eq, bne_iff_ne, ne_eq] at h
+    exact ⟨rfl, by simp [pctByte, hs], h.1.1.1, h.1.1.2, h.1.2, h.2⟩
+  | false =>
+    right
+    simp only [hs, Bool.false_eq_true, if_false, Bool.and_eq_true, bne_iff_ne, ne_eq] at h
+    exact ⟨rfl, by simp [pctByte, hs], h.1, h.2⟩
+
+theorem unescape_cons (c : UInt8) (r : Bytes) (h : c ≠ 37) :
+    unescape (c :: r) = (unescape r).map (c :: ·) := by
+  match r with
+  | [] => simp [unescape, h]
+  | [d] => simp [unescape, h]
+  | a :: b :: r' => simp [unescape, h]
+
+theorem unescape_pct (c : UInt8) (r : Bytes) :
+    unescape (pctByte c ++ r) = (unescape r).map (c :: ·) := by
+  rcases byte_cases c with ⟨_, hp, h1, h2, _, _⟩ | ⟨_, hp, h37, _⟩
+  · rw [hp]
+    show unescape (37 :: upperhex (c.toNat / 16) :: upperhex (c.toNat % 16) :: r) = _
+    have hc : UInt8.ofNat (c.toNat / 16 * 16 + c.toNat % 16) = c := by
+      have : c.toNat / 16 * 16 + c.toNat % 16 = c.toNat := by omega
+      rw [this, UInt8.ofNat_toNat]
+    simp only [unescape, if_true, h1, h2]
+    cases unescape r with
+    | none => rfl
+    | some t => simp [hc]
+  · rw [hp]
+    exact unescape_cons c r h37
+
+/-- percent-decoding undoes `url.PathEscape` -/
+theorem unescape_escape (s : Bytes) : unescape (pathEscape s) = some s := by
+  induction s with
+  | nil => rfl
+  | cons c r ih =>
+    show unescape (pctByte c ++ pathEscape r) = _
+    rw [unescape_pct, ih]; rfl
+
+/-- an escaped component contains no '/' -/
+theorem no_slash_escape (s : Bytes) : slash ∉ pathEscape s := by
+  induction s with
+  | nil => simp [pathEscape]
+  | cons c r ih =>
+    show slash ∉ pctByte c ++ pathEscape r
+    intro h
+    rcases List.mem_append.1 h with h | h
+    · rcases byte_cases c with ⟨_, hp, _, _, g1, g2⟩ | ⟨_, hp, _, h47⟩
+      · rw [hp] at h
+        simp only [List.mem_cons, List.not_mem_nil, or_false, slash] at h
+        rcases h with h | h | h
+        · exact absurd h (by decide)
+        · exact g1 h.symm
+        · exact g2 h.symm
+      · rw [hp] at h
+        simp only [List.mem_singleton, slash] at h
+        exact h47 h.symm
+    · exact ih h
+
+theorem splitSlash_ne_nil (s : Bytes) : splitSlash s ≠ [] := by
+  cases s with
+  | nil => simp [splitSlash]
+  | cons c r =>
+    simp only [splitSlash]
+    split
+    · simp
+    · split <;> simp
+
+theorem splitSlash_cons (c : UInt8) (r : Bytes) :
+    splitSlash (c :: r) = if c = slash then [] :: splitSlash r
+      else ((splitSlash r).headD [] |> (c :: ·)) :: (splitSlash r).tail := by
+  simp only [splitSlash]
+  cases hr : splitSlash r with
+  | nil => exact absurd hr (splitSlash_ne_nil r)
+  | cons x t => by_cases hc : c = slash <;> simp [hc]
+
+theorem splitSlash_noslash (a : Bytes) (h : slash ∉ a) : splitSlash a = [a] := by
+  induction a with
+  | nil => rfl
+  | cons c r ih =>
+    have hr : slash ∉ r := fun x => h (List.mem_cons_of_mem _ x)
+    have hc : c ≠ slash := fun e => h (by rw [e]; exact List.mem_cons_self ..)
+    rw [splitSlash_cons, ih hr]
+    simp [hc]
+
+theorem splitSlash_append (a b : Bytes) (h : slash ∉ a) :
+    splitSlash (a ++ [slash] ++ b) = a :: splitSlash b := by
+  induction a with
+  | nil =>
+    show splitSlash (slash :: b) = _
+    rw [splitSlash_cons]; simp
+  | cons c r ih =>
+    have hr : slash ∉ r := fun x => h (List.mem_cons_of_mem _ x)
+    have hc : c ≠ slash := fun e => h (by rw [e]; exact List.mem_cons_self ..)
+    show splitSlash (c :: (r ++ [slash] ++ b)) = _
+    rw [splitSlash_cons, ih hr]
+    simp [hc]
+
+theorem split_join_escape : ∀ (comps : List Bytes), comps ≠ [] →
+    (splitSlash (joinSlash (comps.map pathEscape))).mapM unescape = some comps := by
+  intro comps
+  induction comps with
+  | nil => intro h; exact absurd rfl h
+  | cons c r ih =>
+    intro _
+    cases r with
+    | nil =>
+      simp only [List.map_cons, List.map_nil, joinSlash]
+      rw [splitSlash_noslash _ (no_slash_escape c)]
+      simp [unescape_escape]
+    | cons c2 r2 =>
+      have := ih (by simp)
+      simp only [List.map_cons, joinSlash] at this ⊢
+      rw [splitSlash_append _ _ (no_slash_escape c)]
+      simp only [List.mapM_cons, unescape_escape]
+      rw [this]; rfl
+
+theorem escape_ne_nil (s : Bytes) (h : s ≠ []) : pathEscape s ≠ [] := by
+  cases s with
+  | nil => exact absurd rfl h
+  | cons c r =>
+    show pctByte c ++ pathEscape r ≠ []
+    rcases byte_cases c with ⟨_, hp, _⟩ | ⟨_, hp, _⟩ <;> rw [hp] <;> simp
+
+theorem not_endsWithSlash_append (u e : Bytes) (hne : e ≠ []) (hs : slash ∉ e) :
+    endsWithSlash (u ++ e) = false := by
+  unfold endsWithSlash
+  rw [List.getLast?_append]
+  cases hl : e.getLast? with
+  | none => exact absurd (List.getLast?_eq_none_iff.1 hl) hne
+  | some x =>
+    have : x ∈ e := List.mem_of_getLast? hl
+    have : x ≠ slash := fun e' => hs (e' ▸ this)
+    simp [this]
+
+/-- **The request target names the file.**  For a torrent name that is not empty and a file path
+    with at least one component (what the metadata checks guarantee), the URL is the web seed's
+    base (with a '/' added if it lacks one) followed by a path that, split at '/', is exactly the
+    escaped name and the escaped components — each decoding to itself.  A '/' appears only between
+    components; no component can introduce a query, a fragment or a different path. -/
+theorem C14_url_components (url name : Bytes) (comps : List Bytes) (hn : name ≠ []) (hc : comps ≠ []) :
+    ∃ pre tail, buildUrl url name (some comps) = pre ++ tail ∧
+      (pre = url ∨ pre = url ++ [slash]) ∧
+      (splitSlash tail).mapM unescape = some (name :: comps) := by
+  have hen := escape_ne_nil name hn
+  have hns := no_slash_escape name
+  refine ⟨if !endsWithSlash url then url ++ [slash] else url,
+    pathEscape name ++ [slash] ++ joinSlash (comps.map pathEscape), ?_, ?_, ?_⟩
+  · unfold buildUrl
+    dsimp only
+    rw [not_endsWithSlash_append _ _ hen hns]
+    simp [List.append_assoc]
+  · cases endsWithSlash url <;> simp
+  · rw [splitSlash_append _ _ hns]
+    simp only [List.mapM_cons, unescape_escape]
+    rw [split_join_escape comps hc]; rfl
+
+/-- single-file torrents: the name alone -/
+theorem C14_url_single (url name : Bytes) (hs : endsWithSlash url = true) :
+    buildUrl url name none = url ++ pathEscape name ∧ unescape (pathEscape name) = some name := by
+  refine ⟨by simp [buildUrl, hs], unescape_escape name⟩
+
+/-- "h/" + name "a#b" + ["x y"] = "h/a%23b/x%20y" -/
+example : buildUrl [104, 47] [97, 35, 98] (some [[120, 32, 121]])
+    = [104, 47, 97, 37, 50, 51, 98, 47, 120, 37, 50, 48, 121] := by decide
+
+end Url
 
 /-! ### parseContentRange -/
 
